@@ -48,7 +48,7 @@ def generate(tier, rng):
                         attrs.append('vis()' if k % 12 == 3 else ('vis(pub(super))' if k % 12 == 9 else 'vis(pub(crate))'))
                     if mode in (0, 2, 4):
                         attrs.append('allow(dead_code, unused_variables)')
-                        attrs.append('derive(Hash, PartialOrd, Ord)')
+                        attrs.append('derive(Hash, PartialOrd, Ord,)' if (k // 6) % 2 else 'derive(Hash, PartialOrd, Ord)')
                         asserts.append('fn _needs_hash_ord<X: core::hash::Hash + Ord>() {} fn _chk_hash() { _needs_hash_ord::<$D>(); }')
                     if mode in (1, 5):
                         attrs.append('derive(strum::EnumIter, strum::Display)')
